@@ -59,8 +59,28 @@ func FixtureKey(prefix string, i int) jose.JSONWebKey {
 	return ks[i%len(ks)]
 }
 
+// UnusedFixtureKeys returns keys of the family other than fixtures i .. i+span-1 (the ones a world uses for its
+// current, second, rotated and stranger keys); families with few fixtures return none.
+func UnusedFixtureKeys(prefix string, i, span int) []jose.JSONWebKey {
+	ks := fixtures.Keys(prefix)
+	used := map[int]bool{}
+	for d := 0; d < span; d++ {
+		used[(i+d)%len(ks)] = true
+	}
+	var out []jose.JSONWebKey
+	for j, k := range ks {
+		if !used[j] {
+			out = append(out, k)
+		}
+	}
+	return out
+}
+
 // OPConfig describes one provider node.
 type OPConfig struct {
+	// Strategy, if set, is used instead of a freshly built issuer strategy; AllowInsecure adds op.WithAllowInsecure
+	Strategy      func(bool) (op.IssuerFromRequest, error)
+	AllowInsecure bool
 	Router     string // "A" = op.Provider (chi router with legacy handlers), "B" = op.RegisterLegacyServer
 	Issuer     string // e.g. https://op.sim
 	IssuerMode string // "static" (default), "host", "forwarded"
@@ -92,8 +112,11 @@ func BuildOP(store *Store, cfg OPConfig) (*OPNode, error) {
 	default:
 		issuerFn = op.StaticIssuer(cfg.Issuer)
 	}
+	if cfg.Strategy != nil {
+		issuerFn = cfg.Strategy // an issuer strategy value that the application built itself (and may reuse)
+	}
 	opts := append([]op.Option{op.WithLogger(Discard)}, cfg.Options...)
-	if strings.HasPrefix(cfg.Issuer, "http://") {
+	if strings.HasPrefix(cfg.Issuer, "http://") || cfg.AllowInsecure {
 		opts = append(opts, op.WithAllowInsecure())
 	}
 	provider, err := op.NewProvider(cfg.Config, storage, issuerFn, opts...)
